@@ -859,8 +859,16 @@ def run_chunk(spec, ctx):
         runner = Runner(ctx, sp, FX, max_timeout=1, per_stmt=1)
         obs = [H.mk_test([f"var_0 = {alias}.{fn}(5)"]) for fn in ("pr", "draw", "log_query", "plain")]
         base = {}
-        for t in obs:
-            base[id(t)] = _trim(Runner(ctx, sp, FX).alone(t)["summary"])
+        plain_runner = Runner(ctx, sp, FX, max_timeout=20, per_stmt=20)
+        for t in list(obs):
+            for _ in range(3):
+                s0 = plain_runner.alone(t)["summary"]
+                if "execute-raised" not in s0 and not s0["timeout"]:
+                    base[id(t)] = _trim(s0)
+                    break
+            else:
+                ctx.anomaly("baseline-timeout")
+                obs.remove(t)
         for spin in ("_spin", "_spin_print"):
             loop = H.mk_test([f"var_0 = {alias}.{spin}(1)"])
             seq = [loop] + obs + [loop]
